@@ -176,12 +176,18 @@ func (s *serviceImpl) Receive(m *net.Message, from Channel) error {
 	return nil
 }
 
-// Terminate calls OnTerminate on all its objects.
+// Terminate calls OnTerminate on all its objects. The objects are
+// first detached from the service: each one is terminated once (a
+// later Remove does not find it anymore) and the lock is not held
+// while the objects are informed.
 func (s *serviceImpl) Terminate() error {
-	s.RLock()
-	defer s.RUnlock()
+	s.Lock()
+	objects := s.objects
+	s.objects = make(map[uint32]Actor)
+	s.boxes = make(map[uint32]MailBox)
+	s.Unlock()
 
-	for _, obj := range s.objects {
+	for _, obj := range objects {
 		obj.OnTerminate()
 	}
 	if s.terminate != nil {
